@@ -33,7 +33,8 @@ RULE = ("part 'handoff': ProgGen programs whose remote nodes hand work (multi-ho
         "returned within a run are pairwise distinct; placement (unique, contiguous, start at 1, end at n) holds on the merged "
         "messages. part 'chain': 2-4 hops deep chains of preserved callables / continued tasks (each hop synchronous or on a joined thread) run as the "
         "only registered thread of a schedule: no hop blocks on something an earlier hop still holds (deadlock = violation), merged tape == "
-        "ground truth. part 'forkwrite': the worker is forked while another thread of the parent is parked inside its file destination's write(): the "
+        "ground truth. part 'rewrap': an already preserved callable preserved again under another action (both get their remote_task child, positions stay "
+        "1..n) and ids serialized after the action finished (unique, on fresh positions). part 'forkwrite': the worker is forked while another thread of the parent is parked inside its file destination's write(): the "
         "single-threaded child still continues the task into its own file (a child still stuck after 90 s as the only thread of its process "
         "counts as blocked for good). part 'subprocess': the id crosses to a fresh interpreter via argv. part 'race': one preserve_context callable "
         "invoked by 2-4 threads under the line-granular scheduler (LINE events on eliot/_action.py), ALL one-preemption schedules "
@@ -52,6 +53,7 @@ def plan(tier, seed):
     specs = [{"part": "handoff", "seed": seed, "lo": i, "hi": min(n, i + B)} for i in range(0, n, B)]
     m = 400 if tier == "quick" else 8000
     specs += [{"part": "chain", "seed": seed, "lo": i, "hi": min(m, i + 25)} for i in range(0, m, 25)]
+    specs += [{"part": "rewrap", "seed": seed, "lo": i, "hi": i + 50} for i in range(0, 200 if tier == "quick" else 2000, 50)]
     specs += [{"part": "forkwrite", "seed": seed, "i": i} for i in range(8 if tier == "quick" else 60)]
     specs += [{"part": "subprocess", "seed": seed, "i": i} for i in range(6 if tier == "quick" else 60)]
     specs += [{"part": "race", "seed": seed, "i": i, "tier": tier} for i in range(16 if tier == "quick" else 200)]
@@ -408,6 +410,76 @@ def part_race(spec, res):
         res["sample"] = {"part": "race", "callers": ncallers, "outcome": outcome, "baseline_events": base["events"]}
 
 
+def one_rewrap(seed, i, res):
+    """(a) A callable that was already made with preserve_context is handed to preserve_context again under ANOTHER action (a
+    generic submit-to-pool helper that always preserves): both actions get their eliot:remote_task child. (b) Ids serialized
+    after the action has finished are still unique and take fresh positions."""
+    from vf.tape import Recorder, Tape
+    rng = random.Random("%s:C06:rw:%d" % (seed, i))
+    tape = Tape()
+    rec = Recorder(tape, "rec")
+    add_destinations(rec)
+    problems = []
+    try:
+        ran = []
+
+        def job():
+            ran.append(current_action())
+            log_message(message_type="rw:job")
+            return "result"
+        with start_action(action_type="rw:P") as p_act:
+            g = preserve_context(job)
+            log_message(message_type="rw:p-after")
+        with start_action(action_type="rw:Q") as q_act:
+            g2 = preserve_context(g)
+            log_message(message_type="rw:q-after")
+            if rng.random() < 0.5:
+                out = g2()
+            else:
+                box = []
+                t = threading.Thread(target=lambda: box.append(g2()))
+                t.start()
+                t.join()
+                out = box[0] if box else None
+        if out != "result" or len(ran) != 1:
+            problems.append("the doubly preserved callable returned %r after %d runs" % (out, len(ran)))
+        # ids taken from a finished action
+        ids = [p_act.serialize_task_id() for _ in range(3)] + [q_act.serialize_task_id()]
+        if len(set(ids)) != len(ids):
+            problems.append("serialize_task_id on a finished action returned the same id twice: %r" % (ids,))
+    except BaseException as e:
+        problems.append("scenario raised %r" % (e,))
+    finally:
+        remove_destination(rec)
+    msgs = tape.msgs("rec")
+    for name, act in (("P", p_act), ("Q", q_act)):
+        mine = [m for m in msgs if m["task_uuid"] == act.task_uuid]
+        remote_starts = [m for m in mine if m.get("action_type") == "eliot:remote_task" and m.get("action_status") == "started"]
+        if len(remote_starts) != 1:
+            problems.append("action %s, under which preserve_context was called once, has %d eliot:remote_task children" % (name, len(remote_starts)))
+        levels = sorted(tuple(m["task_level"]) for m in mine if len(m["task_level"]) == 1)
+        taken = set(l[0] for l in levels) | set(m["task_level"][0] for m in mine if len(m["task_level"]) > 1)
+        end = max(l[0] for l in levels) if levels else 0
+        if taken != set(range(1, end + 1)):
+            problems.append("action %s: positions %s are not 1..%d (a position reserved by preserve_context was never used, or never reserved)" % (name, sorted(taken), end))
+    if not problems:
+        used = set()
+        for m in msgs:
+            used.add((m["task_uuid"], m["task_level"][0]))
+        for tid in ids:
+            u, lvl = tid.decode("ascii").split("@")
+            pos = int(lvl.strip("/").split("/")[0])
+            if (u, pos) in used:
+                problems.append("an id serialized after the action finished names position %d, which one of its own messages already has" % pos)
+                break
+    res["evals"] += 1
+    c = res["counters"]
+    c["rewrap_scenarios"] = c.get("rewrap_scenarios", 0) + 1
+    res["nontrivial"].append(h(["rewrap", i % 4]))
+    if problems:
+        res["violations"].append({"msg": problems[0], "mech": None, "detail": {"part": "rewrap", "problems": problems[:5]}})
+
+
 def one_forkwrite(seed, i, res):
     """The originating process forks its worker while another of its threads is in the middle of writing a log line (slow disk or
     pipe). The child - a single-threaded copy - must still be able to continue the task and log into its own file."""
@@ -543,7 +615,10 @@ def one_chain(seed, i, res):
 
 def run_case(spec):
     res = {"evals": 0, "nontrivial": [], "counters": {}, "violations": [], "sample": None, "sets": {"interleavings": [], "preemption_lines": []}}
-    if spec["part"] == "forkwrite":
+    if spec["part"] == "rewrap":
+        for i in range(spec["lo"], spec["hi"]):
+            one_rewrap(spec["seed"], i, res)
+    elif spec["part"] == "forkwrite":
         one_forkwrite(spec["seed"], spec["i"], res)
     elif spec["part"] == "chain":
         for i in range(spec["lo"], spec["hi"]):
